@@ -8,7 +8,7 @@ frames.
 """
 from hyperframe.exceptions import InvalidFrameError, InvalidDataError
 from hyperframe.frame import (
-    Frame, HeadersFrame, ContinuationFrame, PushPromiseFrame
+    Frame, HeadersFrame, ContinuationFrame, PushPromiseFrame, SettingsFrame
 )
 
 from .exceptions import (
@@ -136,6 +136,11 @@ class FrameBuffer:
 
         # Confirm the frame has an appropriate length.
         self._validate_frame_length(length)
+
+        # RFC 7540 Section 6.5: a SETTINGS frame with the ACK flag set and a
+        # non-empty payload is a connection error of type FRAME_SIZE_ERROR.
+        if isinstance(f, SettingsFrame) and 'ACK' in f.flags and length:
+            raise FrameDataMissingError("SETTINGS ACK frame with a payload")
 
         # Try to parse the frame body
         try:
